@@ -256,23 +256,27 @@ def r6_whole_domain(ctx):
 # For every roster checker: the calls whose result decides whether an item of the checked domain is skipped (a branch inside the
 # checker's loops from which no diagnostic can be reached any more before the next iteration). Extracted from today's tree and
 # confirmed by reading each function: lifecycle / cloning-policy filters that the documented rule itself names, the loop
-# machinery, and the predicate that IS the rule (assert_trait_is_implemented, find_cycles, ...). A new entry means a new way
-# for a rule-breaking component to escape the check.
+# machinery, and the predicate that IS the rule (assert_trait_is_implemented, find_cycles, ...). Private helpers living in the
+# checker's own file and closures handed to adaptors are looked through (what they call is what counts), so extracting or inlining
+# a helper does not change the set. A new entry means a new way for a rule-breaking component to escape the check.
 REVIEWED_SKIP_PREDICATES = {
     'analyses::constructibles::ConstructibleDb::detect_missing_constructors': {
+        'analyses::components::db::ComponentDb::bind_generic_type_parameters',
         'analyses::components::db::ComponentDb::cloning_policy',
         'analyses::components::db::ComponentDb::derived_component_ids',
         'analyses::components::db::ComponentDb::hydrated_component',
+        'analyses::components::db::ComponentDb::iter',
         'analyses::components::db::ComponentDb::lifecycle',
+        'analyses::components::db::ComponentDb::scope_graph',
         'analyses::components::db::ComponentDb::scope_id',
         'analyses::components::db::ComponentDb::user_component_id',
         'analyses::components::hydrated::HydratedComponent::input_types',
-        'analyses::constructibles::ConstructibleDb::detect_missing_constructors::Queue::bootstrap',
-        'analyses::constructibles::ConstructibleDb::detect_missing_constructors::Queue::pop',
-        'analyses::constructibles::ConstructibleDb::get_or_try_bind',
         'analyses::framework_items::FrameworkItemDb::get_id',
         'analyses::framework_items::FrameworkItemDb::lifecycle',
+        'analyses::user_components::scope_graph::ScopeId::direct_parent_ids',
+        'component::constructor::Constructor::output_type',
         'core::cmp::PartialEq::eq',
+        'core::option::Option::is_some',
     },
     'analyses::constructibles::ConstructibleDb::verify_singleton_ambiguity': {
         'indexmap::set::IndexSet::len',
@@ -284,7 +288,7 @@ REVIEWED_SKIP_PREDICATES = {
         'analyses::components::db::ComponentDb::scope_graph',
         'analyses::components::db::ComponentDb::scope_id',
         'analyses::components::hydrated::HydratedComponent::input_types',
-        'analyses::constructibles::ConstructibleDb::get',
+        'analyses::user_components::scope_graph::ScopeId::direct_parent_ids',
         'core::cmp::PartialEq::eq',
         'core::cmp::PartialEq::ne',
     },
@@ -293,12 +297,13 @@ REVIEWED_SKIP_PREDICATES = {
         'analyses::components::db::ComponentDb::iter',
         'analyses::components::db::ComponentDb::scope_graph',
         'analyses::components::db::ComponentDb::scope_id',
-        'analyses::constructibles::ConstructibleDb::get',
+        'analyses::user_components::scope_graph::ScopeId::direct_parent_ids',
         'component::constructor::Constructor::input_types',
         'component::error_observer::ErrorObserver::input_types',
     },
     'analyses::call_graph::dependency_graph::DependencyGraph::assert_acyclic': {
-        'analyses::call_graph::dependency_graph::find_cycles',
+        'core::cmp::PartialEq::eq',
+        'std::collections::hash::set::HashSet::contains',
     },
     'analyses::application_state::thread_safety::runtime_singletons_are_thread_safe': {
         'framework_rustdoc::resolve_type_path',
@@ -306,6 +311,7 @@ REVIEWED_SKIP_PREDICATES = {
     },
     'analyses::application_state::cloning::runtime_singletons_can_be_cloned_if_needed': {
         'analyses::components::db::ComponentDb::cloning_policy',
+        'analyses::components::db::ComponentDb::lifecycle',
         'analyses::processing_pipeline::pipeline::RequestHandlerPipeline::graph_iter',
         'core::cmp::PartialEq::eq',
         'core::cmp::PartialEq::ne',
@@ -323,14 +329,23 @@ REVIEWED_SKIP_PREDICATES = {
         'traits::assert_trait_is_implemented',
     },
     'path_parameters::verify_path_parameters': {
+        'analyses::components::db::ComponentDb::hydrated_component',
+        'analyses::components::db::ComponentDb::registration_target',
+        'analyses::components::db::ComponentDb::user_component_id',
+        'analyses::components::db::ComponentDb::user_db',
         'analyses::processing_pipeline::pipeline::RequestHandlerPipeline::graph_iter',
         'analyses::route_path::RoutePath::parse',
         'analyses::router::Router::handler_ids',
         'analyses::router::Router::route_infos',
+        'analyses::user_components::component::UserComponent::kind',
+        'core::cmp::PartialEq::eq',
+        'core::cmp::PartialEq::ne',
         'core::result::Result::is_err',
         'framework_rustdoc::resolve_type_path',
+        'indexmap::set::IndexSet::contains',
         'indexmap::set::IndexSet::is_empty',
-        'path_parameters::must_be_a_plain_struct',
+        'pavexc::diagnostic::sink::DiagnosticSink::annotated',
+        'pavexc::diagnostic::sink::DiagnosticSink::push',
         'traits::assert_trait_is_implemented',
     },
     'analyses::user_components::router::PathRouter::detect_method_conflicts': {
@@ -344,7 +359,6 @@ REVIEWED_SKIP_PREDICATES = {
     },
     'component::CannotTakeMutReferenceError::check_callable': set(),
 }
-
 _GENERIC_PREDICATES = ('eq', 'ne', 'is_some', 'is_none', 'is_empty', 'is_ok', 'is_err', 'contains', 'contains_key', 'len', 'lt', 'le', 'gt', 'ge',
                        'matches', 'starts_with', 'ends_with')
 
@@ -376,6 +390,13 @@ def skip_predicates(b, mp):
                 if l is not None:
                     sl, _ = backward_slice(b, l, defs)
                     cs = {strip_generics(c) for c, _, _ in slice_calls(sl) if c}
+                    # closures handed to iterator / Option adaptors on the way: what they call decides too
+                    for _, _, node in sl:
+                        rv = node.get('rv')
+                        if rv and rv['k'] == 'agg' and rv.get('ak') == 'closure' and rv.get('def'):
+                            for x in b.fb.bodies_of_item(b.crate, b.nroot):
+                                if x.id == rv['def'] or x.id.startswith(rv['def'] + '::'):
+                                    cs |= {strip_generics(callee(t2)) for _, t2 in x.calls() if callee(t2)}
                 out[(H, W)] = cs
     return out
 
@@ -394,12 +415,31 @@ def r7_skip_conditions(ctx):
         if not ctx.need('C08.R7', short, bodies) or reviewed is None:
             continue
         found = {}
+        home = bodies[0].file
+
+        def expand(c, depth=0):
+            """a private helper that lives in the checker's own file is a piece of the checker that was given a name: what counts is what
+            it calls (an accessor or predicate defined elsewhere keeps its own name)"""
+            if not c.startswith('pavexc::') or depth > 2:
+                return {c}
+            hb = ctx.fb.bodies_of_item('pavexc', c)
+            if not hb or hb[0].file != home or c in ROSTER or c in VALIDATORS:
+                return {c}
+            out = set()
+            for x in hb:
+                for _, t in x.calls():
+                    cc = strip_generics(callee(t) or '')
+                    if cc and cc != c:
+                        out |= expand(cc, depth + 1)
+            return out
+
         for b in bodies:
             for (H, W), cs in skip_predicates(b, mp).items():
                 n += 1
-                for c in cs:
-                    if c.startswith('pavexc::') or c.split('::')[-1] in _GENERIC_PREDICATES:
-                        found.setdefault(c.replace('pavexc::compiler::', ''), b.loc(W))
+                for c0 in cs:
+                    for c in expand(c0):
+                        if c.startswith('pavexc::') or c.split('::')[-1] in _GENERIC_PREDICATES:
+                            found.setdefault(c.replace('pavexc::compiler::', ''), b.loc(W))
         new = sorted(set(found) - reviewed)
         ctx.ob('C08.R7', 'skip-conditions|%s' % short, not new, found[new[0]] if new else bodies[0].loc(),
                '%d predicate(s) decide what %s skips; not in the reviewed table: %s' % (len(found), short.split('::')[-1], new or 'none'))
